@@ -320,7 +320,8 @@ macro_rules! impl_div_for_primitive {
                 } else if rhs.is_one() {
                     // no-op
                 } else {
-                    *self = self.clone() / BigDecimal::from(rhs);
+                    // same result as `self / rhs` (exact for -1 and +-2)
+                    *self = self.clone() / rhs;
                 }
             }
         }
@@ -425,7 +426,8 @@ macro_rules! impl_div_for_primitive {
                 if !denom.is_normal() {
                     *self = BigDecimal::zero()
                 } else {
-                    *self = self.clone() / BigDecimal::try_from(denom).unwrap()
+                    // same result as `self / denom` (exact for +-1 and +-2)
+                    *self = self.clone() / denom
                 };
             }
         }
